@@ -1193,6 +1193,40 @@ struct Engine
                 no_alloc("move-construction");
                 same_objects(o.a[0], o.a[1], SIZE_MAX, "move-construction");
                 break;
+            case O_CC:
+            case O_CA:
+                // C06: a copy goes through the value type's own copy constructor unless the type is trivially copyable
+                if (o.a[0] != o.a[1] && post.present[o.a[1]] && !post.moved[o.a[1]])
+                {
+                    std::size_t expected = 0;
+                    for (auto& e : m[o.a[1]].el) expected += LS::copy_counted_objects(e);
+                    if (R().copy_ctor != expected)
+                        report("C06", "registry", "copy:constructor-count",
+                               "copying a vector with %zu non-trivially-copyable objects ran %lu copy constructors", expected,
+                               R().copy_ctor);
+                }
+                break;
+            case O_XR:
+                if (o.a[3] != 2 && xm[o.a[0]].present)
+                {
+                    const std::size_t expected = LS::copy_counted_objects(xm[o.a[0]].e);
+                    if (R().copy_ctor != expected)
+                        report("C06", "registry", "element-copy:constructor-count",
+                               "constructing an element from a (const) reference to %zu non-trivially-copyable objects ran %lu "
+                               "copy constructors",
+                               expected, R().copy_ctor);
+                }
+                break;
+            case O_XCC:
+                if (xm[o.a[1]].present)
+                {
+                    const std::size_t expected = LS::copy_counted_objects(xm[o.a[1]].e);
+                    if (R().copy_ctor != expected)
+                        report("C06", "registry", "element-copy:constructor-count",
+                               "copy constructing an element with %zu non-trivially-copyable objects ran %lu copy constructors",
+                               expected, R().copy_ctor);
+                }
+                break;
             case O_MA:
                 // C08: between unequal non-propagating allocators the elements are transferred one by one - exactly one
                 // move construction per stored non-trivial object, no copy, into memory of the target's allocator
